@@ -10,9 +10,11 @@
  * scores within sigma_1 times that, varexp_k = 100 lambda_k / trace within the first-order image of it.
  * Equivariance compares two fits of mathematically equivalent inputs with twice the allowance.
  *
- * Violation keys carry the class lambda_k < 1 / >= 1: on the pinned tree the loading accumulator is not
- * cleared between NIPALS iterations (power method on I + E'E), which matters exactly when the eigenvalue
- * being extracted is not large against 1. */
+ * Violation keys carry the class lambda_k < 10 / >= 10: on the pinned tree the loading accumulator is not
+ * cleared between NIPALS iterations (power method on I + E'E instead of E'E), which changes the contraction
+ * ratio (1+lambda_{k+1})/(1+lambda_k) noticeably exactly when the eigenvalue being extracted is not large
+ * against 1 (measured: for lambda_k >= 10 the pinned tree sits >= 10x below the allowance, for 1 <= lambda_k < 10
+ * only 1.7x below, for lambda_k < 1 up to 285x above). */
 #include "C01_pcacommon.h"
 
 #define NR 60
@@ -107,7 +109,7 @@ static void body(void) {
       ld sk = sqrtl(A.lam[k]);
       allow[k] = nipals_allow(k + 1, delta, r) + 1e3 * DEPS * (n + p) * (double)(sig1 / sk);
       vallow[k] = 100 * (double)((4 * allow[k] * sig1 * sk + allow[k] * allow[k] * A.lam[0] + 2 * delta * A.lam[k]) / A.trace) + 100 * 64 * DEPS * (n * p + 2);
-      cls[k] = A.lam[k] < 1 ? "lambda_k<1" : "lambda_k>=1";
+      cls[k] = A.lam[k] < 10 ? "lambda_k<10" : "lambda_k>=10";
     } }
   vx_require(njudged > 0);
 
@@ -115,13 +117,16 @@ static void body(void) {
     for (int k = 0; k < a; k++) if (judged[k]) {
       int sg; double sn = (double)sin_angle_col(A.mod->loadings, k, A.V, k, &sg);
       snprintf(key, sizeof key, "axis|PCA|%s", cls[k]);
+      margin_note(A.lam[k] < 10 ? "axis,lambda<10" : "axis,lambda>=10", sn, allow[k]);
       vx_check(sn <= allow[k], key, "(%dx%d) scaling %d spread %g ratio %g nproc %d: loading %d is %.3g rad off the %d-th principal axis (allowance %.3g; lambda_k %.3Lg, %ld iterations)", n, p, scaling, spread, ratio, nproc, k + 1, sn, k + 1, allow[k], A.lam[k], A.iters);
       ld d2 = 0; for (int i = 0; i < n; i++) { ld d = A.mod->scores->data[i][k] - sg * RM(A.T, i, k); d2 += d * d; }
       double ds = (double)sqrtl(d2), tol_s = allow[k] * (double)sig1;
       snprintf(key, sizeof key, "score|PCA|%s", cls[k]);
+      margin_note(A.lam[k] < 10 ? "score,lambda<10" : "score,lambda>=10", ds, tol_s);
       vx_check(ds <= tol_s, key, "(%dx%d) scaling %d spread %g ratio %g: |t_%d - E v_%d| = %.3g (allowance %.3g)", n, p, scaling, spread, ratio, k + 1, k + 1, ds, tol_s);
       double ve = 100 * (double)(A.lam[k] / A.trace), dv = fabs(A.mod->varexp->data[k] - ve);
       snprintf(key, sizeof key, "varexp|PCA|%s", cls[k]);
+      margin_note(A.lam[k] < 10 ? "varexp,lambda<10" : "varexp,lambda>=10", dv, vallow[k]);
       vx_check(dv <= vallow[k], key, "(%dx%d) scaling %d spread %g ratio %g: varexp[%d] = %.10g, 100*lambda/trace = %.10g (allowance %.3g)", n, p, scaling, spread, ratio, k + 1, A.mod->varexp->data[k], ve, vallow[k]);
       vx_log("k=%d: axis %.3g/%.3g score %.3g/%.3g varexp %.3g/%.3g lambda %.4Lg iters %ld\n", k + 1, sn, allow[k], ds, tol_s, dv, vallow[k], A.lam[k], A.iters);
     }
@@ -161,10 +166,12 @@ static void body(void) {
     }
     int sg; double sn = (double)sin_angle_col(B.mod->loadings, k, pe, 0, &sg);
     snprintf(key, sizeof key, "equiv-%s|PCA|loadings,%s", what, cls[k]);
+    { char mn[64]; snprintf(mn, sizeof mn, "equiv-%s-loadings,%s", what, cls[k]); margin_note(mn, sn, 2 * allow[k]); }
     vx_check(sn <= 2 * allow[k], key, "(%dx%d) scaling %d spread %g ratio %g: loading %d of the transformed problem is %.3g rad off the transformed loading (allowance %.3g)", n, p, scaling, spread, ratio, k + 1, sn, 2 * allow[k]);
     ld d2 = 0; for (int i = 0; i < n; i++) { ld d = B.mod->scores->data[i][k] - sg * A.mod->scores->data[rperm[i]][k]; d2 += d * d; }
     double ds = (double)sqrtl(d2), tol_s = 2 * allow[k] * (double)sig1;
     snprintf(key, sizeof key, "equiv-%s|PCA|scores,%s", what, cls[k]);
+    { char mn[64]; snprintf(mn, sizeof mn, "equiv-%s-scores,%s", what, cls[k]); margin_note(mn, ds, tol_s); }
     vx_check(ds <= tol_s, key, "(%dx%d) scaling %d spread %g ratio %g: scores %d differ by %.3g after undoing the transformation and the sign (allowance %.3g)", n, p, scaling, spread, ratio, k + 1, ds, tol_s);
     double dv = fabs(B.mod->varexp->data[k] - A.mod->varexp->data[k]);
     snprintf(key, sizeof key, "equiv-%s|PCA|varexp,%s", what, cls[k]);
@@ -195,6 +202,6 @@ int main(int argc, char **argv) {
   vx_describe("alphabet", "X = U diag(s) V' + offsets, U'1=0, s_i = ratio^i, ratio in {.3,.6,.85}; overall scale so that the smallest column SD is in {0.02,1,100}; shapes {(6,3),(10,4),(8,8),(5,12),(30,6)} [+(60,25)]; scaling -1..5; 2 [4] instances; offsets {none, (1,-7.5,2.5,40) cyclic}; npc 1..3; nproc {1,3}; transformations: ALL row permutations for n<=6 (720 / 120), cyclic shifts + reversal otherwise; ALL column permutations for p<=5, cyclic + reversal otherwise; 6 Householder-product rotations (scaling -1, 0)");
   vx_describe("oracle", "reference = cyclic Jacobi (long double) on the Gram matrix of the library's preprocessed data; component k judged iff lambda_{j+1}/lambda_j <= 0.9 for all j<=k; sin angle(p_k,v_k) <= 5k*delta/(1-r)^2 + 1e3*eps*(n+p)*sigma_1/sigma_k, delta=sqrt(n*1e-10); scores within sigma_1*allowance; varexp within 100*(4 a s1 sk + a^2 s1^2 + 2 delta lambda_k)/trace; equivariance: twice the allowance, one sign per component shared by loadings and scores");
   vx_set_shard_depth(3);
-  vx_expect_outcomes(500);
+  vx_expect_outcomes(300);   /* low on purpose: a library that breaks every fit must surface as violations, not as a vacuity error */
   return vx_main(argc, argv, "C02", body);
 }
